@@ -191,6 +191,11 @@ def run(repo: Repo, rep: Report, tier: str) -> None:
     for g in GENS:
         check_generator(repo, rep, g)
 
+    check_abort_wakes_reader(repo, rep, "reader-woken")
+    from ..delegate import delegate as _delegate24
+    rep.rule("lock-owned", "the AE-wide lock the response generators log under is released only by the thread that holds it (C26's lock-released)")
+    _delegate24(repo, rep, tier, "C26", ("lock-released",), "lock-owned", "another thread releases the lock a response generator holds while it logs an Identifier: the generator's own `with self.lock` exit raises RuntimeError out of next(responses) - the current and all later responses are lost")
+
     # ---- no yield while holding a lock (whole package) -------------------------
     n_regions = 0
     n_gens = 0
@@ -419,3 +424,59 @@ def check_decoded_use_guarded(repo: Repo, rep: Report, rule: str = "failure-path
                     t = enclosing(t, (ast.Try,))
                 rep.check(ok, rule, f"association.{qualname(fn)}", enclosing(u, (ast.stmt,)) or u, f"`{norm(u)[:50]}` works on the data set just decoded from the peer's bytes outside a catch-all try: an element that only fails when it is accessed (pydicom parses lazily) raises out of the response generator - the caller's next() gets an exception instead of (status, None), later responses are lost and the reactor stays paused", mod=am, node=u)
     rep.counters["uses of freshly decoded peer data sets in association.py"] = n
+
+
+WAKING_ACTIONS = ("AA_2", "AA_3", "AA_4")  # the actions that end an association whose DIMSE user may be waiting for a response
+
+
+def check_abort_wakes_reader(repo, rep, rule: str) -> None:
+    """A send_* call (or a response generator) waiting in DIMSEServiceProvider.get_msg() when the association is
+    aborted or the connection drops is woken by the (None, None) sentinel the state machine's abort actions put on
+    the DIMSE message queue; it then yields (Dataset(), None) / returns and marks the association aborted. That
+    needs (a) each of those actions to put the sentinel on *every* normal path - not only when the queue is empty:
+    a reader that is busy with queued responses comes back for the next one afterwards - directly or through a
+    helper that does so unconditionally, and (b) the queue to be unbounded, because the put is made by the
+    provider thread in the middle of an action (a bounded queue that is full blocks the state machine)."""
+    from ..cfg import CFG
+
+    rep.rule(rule, "AA-2 / AA-3 / AA-4 put the (None, None) sentinel on the DIMSE message queue on every normal path; the queue is unbounded")
+    fsm = repo.mod("fsm")
+
+    def is_put(c):
+        return isinstance(c, ast.Call) and isinstance(c.func, ast.Attribute) and c.func.attr in ("put", "put_nowait") and norm(c.func.value).endswith("msg_queue") and c.args and norm(c.args[0]).replace(" ", "") == "(None,None)"
+
+    def always_puts(fn, depth=0):
+        cfg = CFG(fn, body=body_nodoc(fn), local_exc_only=True)
+        aliases = {norm(a.targets[0]) for a in walk_no_nested(fn) if isinstance(a, ast.Assign) and isinstance(a.targets[0], ast.Name) and norm(a.value).endswith("msg_queue")}
+
+        def via(nd):
+            if nd.ast is None or nd.kind not in ("stmt", "finally"):
+                return False
+            for c in walk_no_nested(nd.ast):
+                if is_put(c) or (isinstance(c, ast.Call) and isinstance(c.func, ast.Attribute) and c.func.attr in ("put", "put_nowait") and norm(c.func.value) in aliases and c.args and norm(c.args[0]).replace(" ", "") == "(None,None)"):
+                    return True
+                if isinstance(c, ast.Call) and isinstance(c.func, ast.Name) and c.func.id in fsm.funcs and depth < 2 and c.func.id not in WAKING_ACTIONS:
+                    if always_puts(fsm.funcs[c.func.id], depth + 1)[0]:
+                        return True
+            return False
+
+        return cfg.must_pass(cfg.entry, via, {cfg.exit.id}, labels_excluded=("exc",))
+
+    n = 0
+    for name in WAKING_ACTIONS:
+        fn = fsm.funcs.get(name)
+        if fn is None:
+            rep.defer(f"fsm.{name} vanished")
+            continue
+        n += 1
+        ok, path = always_puts(fn)
+        where = " -> ".join(str(p_.line) for p_ in path[-6:] if p_.line)
+        rep.check(ok, rule, f"fsm.{name}", f"every normal path puts (None, None) on dimse.msg_queue", f"{name.replace('_', '-')} has a way to its end (lines {where}) on which the DIMSE message queue does not get the (None, None) sentinel - or gets it only under a condition (e.g. only when the queue is empty): a send_* call or response generator that is working through queued responses then blocks in get_msg() for the whole DIMSE timeout (for ever with dimse_timeout None) instead of yielding (Dataset(), None), and the association is not marked aborted", mod=fsm, node=fn)
+    rep.floor("abort actions that wake the DIMSE reader", n, 3)
+    dm = repo.mod("dimse")
+    ini = repo.func("dimse", "DIMSEServiceProvider.__init__")
+    qs = [a for a in walk_no_nested(ini) if isinstance(a, (ast.Assign, ast.AnnAssign)) and norm(a.targets[0] if isinstance(a, ast.Assign) else a.target) == "self.msg_queue"]
+    rep.need(len(qs) == 1, "dimse.DIMSEServiceProvider.__init__: self.msg_queue is no longer bound exactly once")
+    v = qs[0].value
+    unbounded = isinstance(v, ast.Call) and (dotted(v.func) or "").split(".")[-1] in ("Queue", "SimpleQueue", "LifoQueue") and not [a for a in v.args if not (isinstance(a, ast.Constant) and a.value in (0, None))] and not [k for k in v.keywords if k.arg == "maxsize" and not (isinstance(k.value, ast.Constant) and k.value.value in (0, None))]
+    rep.check(unbounded, rule, "dimse.DIMSEServiceProvider.__init__", qs[0], f"`{norm(v)}`: the DIMSE message queue is bounded - the abort actions (and receive_primitive) put on it from the provider thread, which blocks in the middle of an action when the user has that many unprocessed messages: the state machine never reaches Sta1, EVT_CONN_CLOSE is never emitted and kill() waits for ever", mod=dm, node=qs[0])
